@@ -4,35 +4,42 @@ From CV Require Import Base.Bytes Lib.Defs Lib.Proofs Lib.WalkProofs Lib.CheckPr
 Local Open Scope N_scope.
 
 (* Library::isIntArgValid, as the code walks the token list of the <valid> text, decides
-   exactly the documented meaning  item(,item)*, item := v | a:b | a: | :b  -- for every
-   expression of that grammar (any number of items, negative bounds), every argument value,
-   provided the bounds are 64-bit values and ranges are not reversed; and it never throws *)
+   exactly the documented meaning  -- `!v` (all values except v) or  item(,item)*,
+   item := v | a:b | a: | :b  -- for every expression of that language (any number of items,
+   negative bounds), every argument value, provided the bounds are 64-bit values and ranges
+   are not reversed; and it never throws *)
 Theorem C30_int_arg_valid_spec s e z :
-  parse_valid s = Some e -> expr_ok e = true ->
-  (int_arg_valid s z = Some true <-> denote e z) /\ int_arg_valid s z <> None.
-Proof. exact (int_arg_valid_spec s e z). Qed.
+  parse_vexpr s = Some e -> vexpr_ok e = true ->
+  (int_arg_valid s z = Some true <-> denote_v e z) /\ int_arg_valid s z <> None.
+Proof. exact (int_arg_valid_vspec s e z). Qed.
 Print Assumptions C30_int_arg_valid_spec.
 
 (* the same as an equation with the executable denotation *)
 Theorem C30_int_arg_valid_denote s e z :
-  parse_valid s = Some e -> expr_ok e = true -> int_arg_valid s z = Some (denote_b e z).
-Proof. exact (int_arg_valid_denote_b s e z). Qed.
+  parse_vexpr s = Some e -> vexpr_ok e = true -> int_arg_valid s z = Some (denote_v_b e z).
+Proof. exact (int_arg_valid_denote_v_b s e z). Qed.
 Print Assumptions C30_int_arg_valid_denote.
 
-Theorem C30_denote_b_spec e z : denote_b e z = true <-> denote e z.
-Proof. exact (denote_b_spec e z). Qed.
+Theorem C30_denote_b_spec e z : denote_v_b e z = true <-> denote_v e z.
+Proof. exact (denote_v_b_spec e z). Qed.
 Print Assumptions C30_denote_b_spec.
 
-(* every expression of the documented grammar passes isCompliantValidationExpression,
+(* `!v` with an integer v: all values are accepted, except v (was a finding; fixed by b7bc34c) *)
+Theorem C30_bang_int n v z :
+  parse_num n = Some v -> in64 v = true -> int_arg_valid (cBANG :: n) z = Some (negb (z =? v)%Z).
+Proof. exact (int_arg_valid_bang n v z). Qed.
+Print Assumptions C30_bang_int.
+
+(* every expression of the documented language passes isCompliantValidationExpression,
    i.e. the loader accepts it *)
-Theorem C30_documented_expressions_load s e : parse_valid s = Some e -> compliant s = true.
-Proof. exact (parses_compliant s e). Qed.
+Theorem C30_documented_expressions_load s e : parse_vexpr s = Some e -> compliant s = true.
+Proof. exact (vparses_compliant s e). Qed.
 Print Assumptions C30_documented_expressions_load.
 
 (* invalidFunctionArg decision for a known constant: reported iff outside the declared ranges *)
 Theorem C30_reports_invalid_arg_iff ac e z :
-  ac_valid ac <> [] -> parse_valid (ac_valid ac) = Some e -> expr_ok e = true ->
-  (reports_invalid_arg ac z = Some true <-> ~ denote e z).
+  ac_valid ac <> [] -> parse_vexpr (ac_valid ac) = Some e -> vexpr_ok e = true ->
+  (reports_invalid_arg ac z = Some true <-> ~ denote_v e z).
 Proof. exact (reports_invalid_arg_iff ac e z). Qed.
 Print Assumptions C30_reports_invalid_arg_iff.
 
@@ -62,28 +69,20 @@ Theorem C30_shipped_valids_ok :
   forall s, In s valids ->
     compliant s = true /\
     (int_domain s = true ->
-     exists e, parse_valid s = Some e /\ forall z, int_arg_valid s z = Some (denote_b e z)).
+     exists e, parse_vexpr s = Some e /\ forall z, int_arg_valid s z = Some (denote_v_b e z)).
 Proof. exact (conj shipped_table_ok shipped_valids_ok). Qed.
 Print Assumptions C30_shipped_valids_ok.
 
 (* ---- the converse of C30_documented_expressions_load does not hold: the loader accepts more
-   than the documented grammar ("1,,2" ":" "," "+5" "1+2" "!0"); harmless except for "!": *)
+   than the documented language ("1,,2" ":" "," "+5" "1+2" "!0,1"); harmless laxness *)
 Theorem C30_compliant_wider_than_grammar_refuted :
-  Forall (fun s => compliant s = true /\ parse_valid s = None)
-         [[49;44;44;50]; [58]; [44]; [43;53]; [49;43;50]; [33;48]].
+  Forall (fun s => compliant s = true /\ parse_vexpr s = None)
+         [[49;44;44;50]; [58]; [44]; [43;53]; [49;43;50]; [33;48;44;49]].
 Proof. repeat (apply Forall_cons; [split; vm_compute; reflexivity|]). apply Forall_nil. Qed.
 
 (* "1:2:3" and "-:1" are refused at load time *)
 Example C30_refused_examples : compliant [49;58;50;58;51] = false /\ compliant [45;58;49] = false.
 Proof. split; reflexivity. Qed.
-
-(* FINDING: `!v` with an integer v.  The manual: "!0.0 => all values are accepted, except 0.0";
-   the schema admits `!` before any number and the loader accepts "!0"; but the integer path
-   of isIntArgValid ignores the `!` token: "!0" accepts only 0 and rejects everything else. *)
-Theorem C30_bang_int_refuted :
-  compliant [33;48] = true /\
-  int_arg_valid [33;48] 0 = Some true /\ int_arg_valid [33;48] 1 = Some false /\ int_arg_valid [33;48] 7 = Some false.
-Proof. repeat split; reflexivity. Qed.
 
 (* the side conditions of the main theorem are needed: a reversed range accepts its two
    end points, a bound from 2^63 on wraps around, a bound from 2^64 on throws *)
@@ -109,6 +108,9 @@ Proof. eexists. repeat split; vm_compute; reflexivity. Qed.
 Example C30_ex2 : exists e, parse_valid [58;45;49;44;49;58] = Some e /\ expr_ok e = true /\
                             int_arg_valid [58;45;49;44;49;58] 0 = Some false /\ int_arg_valid [58;45;49;44;49;58] (-5) = Some true.
 Proof. eexists. repeat split; vm_compute; reflexivity. Qed.
+Example C30_ex_bang : parse_vexpr [33;48] = Some (VNot 0) /\ int_arg_valid [33;48] 0 = Some false /\ int_arg_valid [33;48] 1 = Some true
+                      /\ int_arg_valid [33;45;53] (-5) = Some false.   (* "!0", "!-5" *)
+Proof. repeat split; vm_compute; reflexivity. Qed.
 Example C30_ex3 : exists ac, load_children [CNotNull; CValid [48;58]; CNotBool] ac0 = Some ac /\ ac_valid ac = [48;58].
 Proof. eexists. split; vm_compute; reflexivity. Qed.
 Example C30_table_size : valids_distinct = N.of_nat (length valids) /\ (0 < n_int_valids).
